@@ -243,7 +243,14 @@ def run(cfg):
                         if dt.year != y:
                             continue          # year spill: refused by the compiler (R2)
                         n5 += 1
-                        got = ev.call(cf, None, (y, mth, dow, dom))
+                        try:
+                            got = ev.call(cf, None, (y, mth, dow, dom))
+                        except Exception as e_:
+                            if 'constant subscript' in str(e_) and 'outside' in str(e_):
+                                # the body indexes a table outside its bounds for this admitted expression: undefined behaviour
+                                bad5.append('%d month %d weekday %d day %d -> %s (calendar: %d-%02d)' % (y, mth, dow, dom, str(e_).strip("'\""), dt.month, dt.day))
+                                continue
+                            raise
                         gm = (got.fields.get('month'), got.fields.get('day')) if hasattr(got, 'fields') else got
                         if gm != (dt.month, dt.day):
                             bad5.append('%d month %d weekday %d day %d -> %r (calendar: %d-%02d)' % (y, mth, dow, dom, gm, dt.month, dt.day))
